@@ -49,7 +49,9 @@ type sbCase struct {
 	KeepAlive   int        `json:"keep_alive"` // index into sbKeepEnv
 	Inventory   int        `json:"inventory"`  // 0 cpu, 1..3 = that many single-GPU "metal" libraries
 	Room        int        `json:"room"`       // index into sbRoom: GPU size as a multiple of the largest model
+	Layout      int        `json:"layout,omitempty"` // 0 every GPU its own library; 1 all GPUs in one library (a model may span them); 2 = 1 with OLLAMA_SCHED_SPREAD=1
 	NModels     int        `json:"n_models"`
+	Overhead    int        `json:"overhead,omitempty"` // index into sbOverhead: OLLAMA_GPU_OVERHEAD as a fraction of the largest model
 	Gated       []bool     `json:"gated"`     // per model: its loads wait for an explicit loadok/loadfail action
 	AutoFail    []bool     `json:"auto_fail"` // outcome script of the loads of non-gated models (by birth order)
 	CloseUs     int        `json:"close_us"`  // how long a runner takes to exit (real microseconds)
@@ -64,7 +66,8 @@ var (
 	// request keep-alive: nil, 0, 30ms, 2s, 1m, infinite (what api.Duration decoding yields for a negative value)
 	sbKeepReq = []*api.Duration{nil, {Duration: 0}, {Duration: 30 * time.Millisecond}, {Duration: 2 * time.Second},
 		{Duration: time.Minute}, {Duration: time.Duration(math.MaxInt64)}}
-	sbRoom = []float64{1.15, 2.3, 12}
+	sbRoom = []float64{1.15, 2.3, 12, 0.55, 0.4}
+	sbOverhead = []float64{0, 0.05, 0.3, 1.0}
 )
 
 const sbNumVariants = 6
@@ -77,6 +80,12 @@ func sbGen(t *rapid.T) sbCase {
 	c.KeepAlive = rapid.IntRange(0, len(sbKeepEnv)-1).Draw(t, "keep_alive")
 	c.Inventory = rapid.SampledFrom([]int{0, 1, 1, 2, 3}).Draw(t, "inventory")
 	c.Room = rapid.IntRange(0, len(sbRoom)-1).Draw(t, "room")
+	if c.Inventory >= 2 {
+		c.Layout = rapid.SampledFrom([]int{0, 1, 1, 2}).Draw(t, "layout")
+	}
+	if c.Inventory >= 1 {
+		c.Overhead = rapid.SampledFrom([]int{0, 0, 0, 1, 2, 3}).Draw(t, "overhead")
+	}
 	c.NModels = rapid.IntRange(1, 4).Draw(t, "n_models")
 	for i := 0; i < 4; i++ {
 		c.Gated = append(c.Gated, rapid.IntRange(0, 2).Draw(t, "gated") == 0)
@@ -277,6 +286,12 @@ func (s *sbSrv) Close() error {
 		}
 	}
 	pause := e.c.CloseUs
+	if len(s.gpuIDs) > 1 {
+		// sched.go waitForVRAMRecovery: after shutting down a runner that spans GPUs the completed loop waits until the
+		// (real) free memory has recovered, for up to 5 s; it handles no other finished request or expiry meanwhile
+		e.recoverUntil = time.Now().Add(5500 * time.Millisecond)
+		e.flag("vram_recovery_wait")
+	}
 	e.mu.Unlock()
 	// A runner process takes a while to exit; until Close returns it still occupies memory and counts as running.
 	// Real time (the scheduler holds its locks here, virtual time could not advance): stretches the window, decides nothing.
@@ -325,6 +340,7 @@ type sbEngine struct {
 
 	unresolved int // instances whose load outcome is still undecided
 	unloading  atomic.Int32
+	recoverUntil time.Time // virtual time until which the scheduler's completed loop may be waiting for VRAM recovery
 	closeCount int
 	bornCount  int
 
@@ -433,6 +449,12 @@ func (e *sbEngine) newServer(gpus discover.GpuInfoList, model string, f *ggml.GG
 		}
 	}
 	e.bornCount++
+	if len(gpus) > 1 {
+		e.flag("runner_spans_gpus")
+		if numParallel > 1 {
+			e.flag("runner_spans_gpus_parallel")
+		}
+	}
 	e.logf("born inst=%d model=%d gpus=%v parallel=%d ctx=%d numgpu=%d vram=%d", s.id, s.model, s.gpuIDs, numParallel, opts.NumCtx, opts.NumGPU, s.vram)
 
 	// C11 (a): never more live runners than the configured maximum (the scheduler has fixed the automatic value by now)
@@ -464,6 +486,22 @@ func (e *sbEngine) newServer(gpus discover.GpuInfoList, model string, f *ggml.GG
 				mine[i].FreeMemory = 0
 			} else {
 				mine[i].FreeMemory = base - used
+			}
+		}
+		// C11 (g): independent of the estimator's own comparisons - what the live runners and the new one are recorded
+		// to occupy on a GPU cannot exceed that GPU's memory
+		for i, g := range gpus {
+			var base, used uint64
+			for _, iv := range e.inv {
+				if iv.ID == g.ID {
+					base = iv.FreeMemory
+				}
+			}
+			for _, o := range others {
+				used += o.byGPU[g.ID]
+			}
+			if i < len(est.GPUSizes) && est.GPUSizes[i] > 0 && used+est.GPUSizes[i] > base {
+				e.violate("C11", "runner %d for model %d started on GPU %s with an estimated %d bytes there although the %d loaded models occupy %d of its %d bytes", s.id, s.model, g.ID, est.GPUSizes[i], len(others), used, base)
 			}
 		}
 		if ok, _ := llm.PredictServerFit(mine, f, adapters, projectors, opts, numParallel); !ok {
@@ -743,7 +781,7 @@ func (e *sbEngine) submit(a sbAction) {
 // undecided. A cancelled request may still occupy the scheduler's pending loop (it keeps waiting for an eviction on
 // its behalf), so the expectations are additionally evaluated only if the new request was dequeued (see submit).
 func (e *sbEngine) quietLocked() bool {
-	if e.unresolved != 0 || e.unloading.Load() != 0 || !e.quiet {
+	if e.unresolved != 0 || e.unloading.Load() != 0 || !e.quiet || time.Now().Before(e.recoverUntil) {
 		return false
 	}
 	for _, r := range e.reqs {
